@@ -962,3 +962,63 @@ func condHoldsEdge(f *ir.Func, pred, succ *ssa.BasicBlock, cond string) (bool, s
 	}
 	return false, ""
 }
+
+// CacheCtxOnly (X-cache): fn obtains a cache context from its context parameter; every call that takes a context
+// receives the cache context (never the outer one), except the listed read-only callees; if query is set, the
+// write-back function returned by CacheContext is never called.
+func (c *Ctx) CacheCtxOnly(fnSpec string, readOnlyOuter []string, query bool, desc string) {
+	f := c.Fn(fnSpec)
+	if f == nil {
+		return
+	}
+	role := "cachectx"
+	cc := c.sites(f, "sdk.Context.CacheContext")
+	if len(cc) != 1 {
+		c.add("X-cache", fnSpec, role, desc, report.Violated, fmt.Sprintf("%d CacheContext calls", len(cc)), c.fnPos(f))
+		return
+	}
+	cacheTerm := f.Term(cc[0].Value()).String() + "#0"
+	allowed := map[string]bool{}
+	for _, a := range readOnlyOuter {
+		allowed[a] = true
+	}
+	n := 0
+	for _, call := range f.Calls() {
+		if call == cc[0] {
+			continue
+		}
+		name := f.CalleeName(call)
+		common := call.Common()
+		vals := common.Args
+		for _, a := range vals {
+			if !isSDKContext(a.Type()) {
+				continue
+			}
+			if strings.HasPrefix(name, "sdk.Context.") {
+				continue // method of the context value itself (Logger, BlockTime, ...)
+			}
+			n++
+			if f.Term(a).String() != cacheTerm && !allowed[name] {
+				c.add("X-cache", fnSpec, role, desc, report.Violated, fmt.Sprintf("%s receives %s instead of the cache context", name, short(f.Term(a).String())), c.posOf(call))
+				return
+			}
+		}
+		if query && name == "dyn" {
+			args := f.CallArgs(call)
+			if len(args) > 0 && args[0].String() == strings.TrimSuffix(cacheTerm, "#0")+"#1" {
+				c.add("X-cache", fnSpec, role, desc, report.Violated, "the cache is written back in a query", c.posOf(call))
+				return
+			}
+		}
+	}
+	if n == 0 {
+		c.add("X-cache", fnSpec, role, desc, report.Violated, "no context-taking call found", c.fnPos(f))
+		return
+	}
+	c.add("X-cache", fnSpec, role, desc, report.OK, fmt.Sprintf("%d context-taking call(s) on the cache context", n), c.posOf(cc[0]))
+}
+
+func isSDKContext(t types.Type) bool {
+	n, ok := t.(*types.Named)
+	return ok && n.Obj().Name() == "Context" && n.Obj().Pkg() != nil && n.Obj().Pkg().Path() == "github.com/cosmos/cosmos-sdk/types"
+}
